@@ -1,4 +1,5 @@
 import BlockCiphers.Registry
+import BlockCiphers.History
 /-
 Model driver: one operation line in, one result line out (same protocol as /verif/harness).
 `nomodel` = no Lean model for this cipher/operation (the check then relies on the direct oracle only
@@ -33,7 +34,11 @@ def execGeneric (t : List String) : String :=
     | some m, some key =>
       match op with
       | "new" => match m.new key with | some _ => "ok" | none => "err-len"
-      | "probe" | "probeclone" => match m.new key with | some kd => probeStr m.blockLen kd | none => "err-len"
+      | "probe" => match m.new key with | some kd => probeStr m.blockLen kd | none => "err-len"
+      | "probeclone" =>
+        match m.new key with
+        | some kd => if m.clonable then probeStr m.blockLen kd else "noclone"
+        | none => "err-len"
       | "probefixed" =>
         if key.length ≠ m.keySize then "err-len" else
         match m.new key with | some kd => probeStr m.blockLen kd | none => "panic:unwrap"
@@ -86,9 +91,53 @@ def execGeneric (t : List String) : String :=
     | _, _, _ => "bad-op"
   | _ => "nomodel"
 
+/-- `hist` script → operations of the abstract API state machine (`BlockCiphers/History.lean`) -/
+def parseHist (script : String) : Option (List History.Op) :=
+  (script.splitOn ";").foldr (fun cmd acc =>
+    match acc with
+    | none => none
+    | some ops =>
+      match cmd.splitOn ":" with
+      | ["n", id, c, k] =>
+        match findCipher c, parseHex k with
+        | some m, some key => some (.construct id m key :: ops)
+        | _, _ => none
+      | ["c", dst, src] => some (.clone dst src :: ops)
+      | ["x", id] => some (.drop id :: ops)
+      | [k, id, d] =>
+        match parseHex d with
+        | some data =>
+          if k == "e" || k == "E" then some (.enc id data :: ops)
+          else if k == "d" || k == "D" then some (.dec id data :: ops)
+          else none
+        | none => none
+      | _ => none) (some [])
+
+def execHist (script : String) : String :=
+  match parseHist script with
+  | none => "nomodel"
+  | some ops =>
+    let outs := (History.run [] ops).2
+    -- the harness stops at the first failing construct/clone and prints that error alone
+    match outs.find? (fun o => match o with | .err _ => true | _ => false) with
+    | some (.err e) => e
+    | _ =>
+      ",".intercalate (outs.filterMap (fun o => match o with | .data d => some (toHex d) | _ => none))
+
 def exec (t : List String) : String :=
   match t with
   | [] => "bad-op"
+  | ["hist", script] => execHist script
+  | ["thr", c, _nt, k, d] =>
+    match findCipher c, parseHex k, parseHex d with
+    | some m, some key, some data =>
+      match History.fresh m key false data, History.fresh m key true data with
+      | .data r, _ => toHex r ++ ":" ++ toHex r
+      | _, .data r => toHex r ++ ":" ++ toHex r
+      | .err e, _ => e
+      | _, _ => "bad-op"
+    | none, _, _ => "nomodel"
+    | _, _, _ => "bad-op"
   | op :: rest =>
     match findSpecial op with
     | some f => f rest
